@@ -79,7 +79,7 @@ def strongly_connected_components[S](
     Single-node components with no self-loop are also returned.
     """
     node_list = list(nodes)
-    index_counter = [0]
+    counter = 0
     stack: list[S] = []
     on_stack: set[S] = set()
     index: dict[S, int] = {}
@@ -87,36 +87,46 @@ def strongly_connected_components[S](
     components: list[list[S]] = []
     iterations = 0
 
-    def strongconnect(v: S) -> None:
-        nonlocal iterations
+    # Tarjan's algorithm with an explicit work stack (deep graphs do not hit the recursion limit)
+    for root in node_list:
+        if root in index:
+            continue
+        index[root] = low_link[root] = counter
+        counter += 1
         iterations += 1
-
-        index[v] = index_counter[0]
-        low_link[v] = index_counter[0]
-        index_counter[0] += 1
-        stack.append(v)
-        on_stack.add(v)
-
-        for w in neighbors(v):
-            if w not in index:
-                strongconnect(w)
-                low_link[v] = min(low_link[v], low_link[w])
-            elif w in on_stack:
-                low_link[v] = min(low_link[v], index[w])
-
-        if low_link[v] == index[v]:
-            component: list[S] = []
-            while True:
-                w = stack.pop()
-                on_stack.remove(w)
-                component.append(w)
-                if w == v:
+        stack.append(root)
+        on_stack.add(root)
+        work = [(root, iter(neighbors(root)))]
+        while work:
+            v, it = work[-1]
+            descended = False
+            for w in it:
+                if w not in index:
+                    index[w] = low_link[w] = counter
+                    counter += 1
+                    iterations += 1
+                    stack.append(w)
+                    on_stack.add(w)
+                    work.append((w, iter(neighbors(w))))
+                    descended = True
                     break
-            components.append(component)
-
-    for v in node_list:
-        if v not in index:
-            strongconnect(v)
+                if w in on_stack:
+                    low_link[v] = min(low_link[v], index[w])
+            if descended:
+                continue
+            work.pop()
+            if work:
+                p = work[-1][0]
+                low_link[p] = min(low_link[p], low_link[v])
+            if low_link[v] == index[v]:
+                component: list[S] = []
+                while True:
+                    w = stack.pop()
+                    on_stack.remove(w)
+                    component.append(w)
+                    if w == v:
+                        break
+                components.append(component)
 
     return Result(components, len(components), iterations, len(node_list))
 
